@@ -402,3 +402,56 @@ example : (0 : Rat) < ([1/3, 1/3, 1/3] : List Rat).getD 0 0 ∧
     C20.apply 4 [[0, 1, 2], [1, 2, 3]] [1/4, 1/2, 1/8, 1/8] = [1/16, 3/64, 3/16, 1/16] ∧
     C20.apply 4 ([[0, 1, 2], [1, 2, 3]].map (List.map fun i => 3 - i)) [1/8, 1/8, 1/2, 1/4] = [1/16, 3/16, 3/64, 1/16] := by
   decide +kernel
+
+/-! ## the hyperedge without members (round e) -/
+/-- the hyperedge WITHOUT members `()` (left behind by `remove_node(x, keep_edges=True)` on a singleton, or added as such) is a
+hyperedge like any other: for every hypergraph - no hypothesis on the listing - both projections have one vertex per listed
+hyperedge, member-less or not (so it counts in the number of vertices that networkx normalises with); in the line graph it is
+adjacent to nothing for every `s` (even `s = 0`), and in the bipartite projection no edge leaves its vertex `E<j>`
+(`sorted(()) = ()` is the only thing asked of `srt`). -/
+theorem C20_memberless {α : Type} [DecidableEq α] (srt : List α → List α) (H : HG α) (s : Nat) :
+    (lineGraph srt H s).verts = List.range H.edges.length ∧
+    (bipGraph srt H).verts.length = H.nodes.length + H.edges.length ∧
+    (∀ j, j < H.edges.length → nameE j ∈ (bipGraph srt H).verts) ∧
+    (∀ b : List α, linked s ([] : List α) b = false ∧ linked s b ([] : List α) = false) ∧
+    (∀ j, srt [] = [] → H.edges[j]? = some [] → ∀ p ∈ (bipGraph srt H).edges, p.1 ≠ nameE j) := by
+  refine ⟨rfl, by simp [bipGraph], ?_, ?_, ?_⟩
+  · intro j hj
+    simp only [bipGraph, List.mem_append, List.mem_map, List.mem_range]
+    exact Or.inr ⟨j, hj, rfl⟩
+  · intro b
+    constructor
+    · simp [linked, inter]
+    · have h : inter b ([] : List α) = 0 := by
+        unfold inter
+        induction b with
+        | nil => rfl
+        | cons a t ih => simp
+      simp [linked, h]
+  · intro j hs hj p hp heq
+    simp only [bipGraph, bipEdges, List.mem_flatMap, List.mem_map] at hp
+    obtain ⟨q, hq, x, hx, rfl⟩ := hp
+    have hq1 : q.1 < H.edges.length ∧ H.edges[q.1]? = some q.2 := by
+      obtain ⟨i, hi⟩ := List.mem_iff_getElem?.mp hq
+      rw [List.getElem?_zip_eq_some] at hi
+      obtain ⟨h1, h2⟩ := hi
+      have h1' := List.getElem?_eq_some_iff.mp h1
+      obtain ⟨hlt, he⟩ := h1'
+      simp at he hlt
+      subst he
+      exact ⟨(List.getElem?_eq_some_iff.mp h2).1, h2⟩
+    have hj' : q.1 = j := nameE_inj heq
+    rw [hj'] at hq1
+    rw [hq1.2] at hj
+    have : q.2 = [] := Option.some.inj hj
+    rw [this, hs] at hx
+    exact absurd hx (List.not_mem_nil)
+
+
+/-- non-vacuity of `C20_memberless`: the object left by `remove_node(6, keep_edges=True)` on `(0,1,2),(2,3),(3,4,5),(5,),(6,)`:
+the member-less hyperedge has its vertex `E4` (11 vertices in all), no edge leaves it, and it is an isolated vertex 4 of the line graph -/
+example : let H : HG Nat := { nodes := [0, 1, 2, 3, 4, 5], edges := [[0, 1, 2], [2, 3], [3, 4, 5], [5], []] }
+    H.edges[4]? = some [] ∧ (bipGraph id H).verts.length = 11 ∧ nameE 4 ∈ (bipGraph id H).verts ∧
+    ((bipGraph id H).edges.filter fun p => p.1 = nameE 4) = [] ∧ (bipGraph id H).edges.length = 9 ∧
+    (lineGraph id H 1).verts = [0, 1, 2, 3, 4] ∧ (lineGraph id H 1).edges = [(0, 1), (1, 2), (2, 3)] := by
+  decide +kernel
